@@ -29,4 +29,7 @@ def run(tier: str, seed: int):
                 'subsets; n<=3 variants batch<=3; n<=2 full cross product of placement x dup x types x requests x pre-cache')
         e3c = (list(F.fam_e3(F.fam_shapes(1, 3), workers=(1, 2, None))) + list(F.fam_e3(F.fam_shapes(4, 4, pre=False), workers=(2, 3), cpu_count=3, liveness=False))
                + list(F.fam_e3(F.fam_variants(3), workers=(2,), liveness=False)) + list(F.fam_e3(F.fam_post_init(3), workers=(1, 2), liveness=False)))
+    if tier != 'quick':
+        x_cf, x_se, x_e3 = F.thorough_extras('C01')
+        cfgs, serial, e3c = list(cfgs) + x_cf, list(serial) + x_se, list(e3c) + x_e3
     return run_e2_property('C01', tier, seed, cfgs, serial_configs=serial, e3_configs=e3c, hash_slices=([('shapes3', 1), ('shapes3', 2)] if tier == 'quick' else [('shapes3', 1), ('shapes3', 2), ('shapes3', 3), ('shapes4', 1), ('shapes4', 2)]), real_cases=list(F.fam_real(F.real_bases('plain'), workers=(1, 2))), rule=rule, assumptions=ASSUME)
